@@ -725,6 +725,14 @@ def priorized_oracle(nsrc=25, stages=(1,), blank=False):
             bad, cls, detail = row_invariants(comps, 'priorized stage %d over %d sources' % (st, nsrc))
             if bad:
                 return bad, cls, detail
+            if st == stages[0] and not blank:
+                # a chain: the priorized catalogue is itself the input of another priorized run
+                f = sfm.SourceFinder(log=logging.getLogger('c03'))
+                pr2 = f.priorized_fit_islands(fn, catalogue=comps, rms=0.05, bkg=0.0, stage=st, cores=1, doregroup=False)
+                comps2 = [s for s in pr2 if hasattr(s, 'source')]
+                bad, cls, detail = row_invariants(comps2, 'priorized stage %d from a priorized catalogue' % st)
+                if bad:
+                    return bad, cls, detail
         return False, None, None
     except Exception as e:
         return True, 'raises-%s' % type(e).__name__, repr(e)[:300]
